@@ -6,10 +6,11 @@ while read commit prop; do
   [ -z "$commit" ] && continue
   s=$(date +%s)
   out=$(tools/mutant.sh revert:$commit $prop quick 0 2>&1)
-  rc=$(echo "$out" | grep -o 'exit=[0-9]*' | tail -1)
+  rc=$(echo "$out" | grep -o '^exit=[0-9]*' | head -1)
+  rp=$(echo "$out" | grep '^replay on' | sed -E 's/replay on (changed|unchanged) tree: exit=([0-9]).*/\1=\2/' | tr '\n' ' ')
   nv=$(echo "$out" | grep -c '^VIOLATION')
   first=$(echo "$out" | grep -A1 '^VIOLATION' | sed -n 2p | cut -c1-150)
-  echo "revert:$commit $prop $rc violations=$nv wall=$(( $(date +%s) - s ))s | $first"
+  echo "revert:$commit $prop $rc violations=$nv replay[$rp] wall=$(( $(date +%s) - s ))s | $first"
 done <<LIST
 a4435b0 C01
 6f00cc3 C02
